@@ -783,3 +783,19 @@ func (m *Machine) doSelect(fr *frame, instr *ssa.Select) value {
 	}
 	return r
 }
+
+// voluntaryYield: the running thread offers the processor (a slow call-back,
+// runtime.Gosched): every enabled thread may run next, at no pre-emption cost.
+func (m *Machine) voluntaryYield() {
+	s := m.sched
+	if s == nil || m.ps == nil || !s.multi {
+		return
+	}
+	me := s.cur
+	me.blocked = true
+	me.cond = func() bool { return true }
+	me.what = "yield"
+	s.pickNext(me)
+	me.blocked = false
+	me.cond = nil
+}
